@@ -84,6 +84,9 @@ impl PoolCfg {
     }
 }
 
+/// Crashes seen once in a shared worker that did not reproduce on a fresh worker (reported in evidence).
+pub static UNCONFIRMED_CRASHES: AtomicUsize = AtomicUsize::new(0);
+
 pub fn ncpu() -> usize {
     std::env::var("VCHECK_JOBS")
         .ok()
@@ -260,6 +263,19 @@ pub fn run(cfg: &PoolCfg, cases: &[Vec<u8>]) -> Vec<Outcome> {
                                 if o.is_crash() { o.describe() } else { "ok".into() },
                                 super::report::truncate(&String::from_utf8_lossy(&cases[i]), 3000)
                             );
+                        }
+                        if matches!(o, Outcome::Died(_) | Outcome::Panic(_)) && cfg.confirm_timeouts {
+                            // a crash must reproduce on a fresh worker: state left behind by earlier cases
+                            // of the same worker (background tasks, threads) must not be blamed on this one
+                            let mut w2: Option<Worker> = None;
+                            let o2 = run_one(&mut w2, cfg, &cases[i], cfg.timeout);
+                            if let Some(wk) = w2 {
+                                kill_worker(wk);
+                            }
+                            if !o2.is_crash() {
+                                UNCONFIRMED_CRASHES.fetch_add(1, Ordering::SeqCst);
+                            }
+                            o = o2;
                         }
                         if matches!(o, Outcome::Timeout) && cfg.confirm_timeouts {
                             // confirm on a fresh worker with a doubled budget: load must not
